@@ -389,6 +389,31 @@ pub fn gen(seed: u64, thorough: bool) {
     for t in fixed {
         out.line(&format!("c13 {}", hex(t)));
     }
+    // children that are strings with ONE escape at every offset 0..100 from the opening quote and tails around the block
+    // width behind it (the escaped / not-escaped status of the block skippers decides how a lazy child reads its text)
+    for pad in 0..=100usize {
+        let tails: &[usize] = if thorough { &[0, 1, 3, 20, 30, 31, 32, 33, 40, 64] } else { &[0, 3, 20, 40] };
+        for &tail in tails {
+            for esc in [&b"\\n"[..], b"\\\"", b"\\u0041"] {
+                if !thorough && esc.len() > 2 && (pad + tail) % 3 != 0 {
+                    continue;
+                }
+                let mut body = vec![b'a'; pad];
+                body.extend_from_slice(esc);
+                body.extend(std::iter::repeat(b'b').take(tail));
+                let mut d = b"[\"".to_vec();
+                d.extend_from_slice(&body);
+                d.extend_from_slice(b"\"]");
+                out.line(&format!("c13 {}", hex(&d)));
+                if (pad + tail) % 2 == 0 {
+                    let mut d = b"{\"k\":\"".to_vec();
+                    d.extend_from_slice(&body);
+                    d.extend_from_slice(b"\",\"n\":[1,\"p\"]}");
+                    out.line(&format!("c13 {}", hex(&d)));
+                }
+            }
+        }
+    }
     let n = if thorough { 40000 } else { 3000 };
     let cfg = GenCfg { max_depth: 5, max_items: 6, ws: true, dup_keys: true, long_strings: true };
     for _ in 0..n {
